@@ -65,7 +65,7 @@ Judge ==
         leftN == IF Idx(LAMBDA e : e.ev = "left") = {} THEN 0 ELSE log[Pos(LAMBDA e : e.ev = "left")].n
         vLeft == IF leftN < 0 THEN <<V("never-blocks-packet-processing-for-ever", "table-locked", d)>>
                  ELSE IF leftN <= Cardinality({r \in Reqs : NVals(r) = 0 /\ ~Has("clean", r)}) THEN <<>>
-                 ELSE <<V("pending-entry-removed-after-delivery", "left", d)>>
+                 ELSE <<V("pending-entry-removed-after-delivery-or-cancellation", "left", d)>>
     IN AllReq(Reqs) \o vStuck \o vAcc \o vLeft
 
 Rec(e) == [ev |-> e.ev, r |-> IF "r" \in DOMAIN e THEN e.r ELSE "", k |-> IF "k" \in DOMAIN e THEN e.k ELSE 0,
